@@ -39,7 +39,8 @@ NB   == IF Sim = "ns3" THEN 3 ELSE 1                        \* scalar scratch fi
 IsNS == Sim \in {"ns2", "ns3"}
 Adv  == Sim \in {"ns2", "pt_scalar", "pt_vector"}
 
-RandF(V)   == [c \in Cells |-> RandomElement(V)]
+\* random fields; about one in eight is identically zero (e.g. one vanishing vorticity / forcing component)
+RandF(V)   == IF 0 \in V /\ RandomElement(1..8) = 1 THEN Zero ELSE [c \in Cells |-> RandomElement(V)]
 Compact(f) == IF Margin = 0 THEN f ELSE [c \in Cells |-> IF InInterior(c, Margin) THEN f[c] ELSE 0]
 TieFree(u) == \A k \in 1..D : \A c \in Cells : (c[Ax(k)] < Shape[Ax(k)]) => u[k][c] + u[k][Sh(c, k, 1)] # 0
 
